@@ -210,12 +210,19 @@ def rule_e1(ck, prog, S, spec, ts):
                 attributed.append(ps.ret.node)
             if attributed:
                 continue
-            if ps.ret.kind in ("call", "callres"):
-                callee = prog.fn(ps.ret.node.get("callee") or "")
+            deciding = ps.ret.node if ps.ret.kind in ("call", "callres") else None
+            if deciding is None and ps.facts:
+                # `if (!converter(...)) return FALSE;` - the last decision on the path is the failure of a library function:
+                # the same delegation as `return converter(...)`, spelled as a guard clause
+                a_, pol_ = ps.facts[-1]
+                if not isinstance(pol_, tuple) and pol_ is False and a_.k == "CallExpr" and prog.fn(a_.get("callee") or "") is not None:
+                    deciding = a_
+            if deciding is not None:
+                callee = prog.fn(deciding.get("callee") or "")
                 if callee is not None and callee.ret.get("t") == "scpi_bool_t":
                     # analyse the callee's silent paths in this caller's context
                     params = {}
-                    for prm, a in zip(callee.params, C.call_args(ps.ret.node)):
+                    for prm, a in zip(callee.params, C.call_args(deciding)):
                         c = C.const_of(a)
                         if c is not None:
                             params[prm["name"]] = c
